@@ -1823,6 +1823,32 @@ Proof.
   eapply Forall_impl; [|exact IH2]. cbv beta. intros a [Ha Hb]. lia.
 Qed.
 
+Lemma parse_loop_S f fuel0 chk s have acc :
+  parse_loop (S f) fuel0 chk s have acc =
+  match read_token s with
+  | Err e => Err e
+  | Ok (t, st, r) =>
+    match t with
+    | T_BUILD =>
+      if negb have then Err E_version_expected_build
+      else match parse_edge fuel0 chk acc r with
+           | Err e => Err e
+           | Ok (stmt, r') => parse_loop f fuel0 chk r' have (stmt :: acc)
+           end
+    | T_IDENT =>
+      if have then Err (E_unexpected T_IDENT)
+      else match parse_version st with
+           | Err e => Err e
+           | Ok r' => parse_loop f fuel0 chk r' true acc
+           end
+    | T_ERROR => Err (E_lex_token (match st with c :: _ => N.eqb c 9 | [] => false end))
+    | T_TEOF => if have then Ok (rev acc) else Err E_version_expected_eof
+    | T_NEWLINE => parse_loop f fuel0 chk r have acc
+    | _ => Err (E_unexpected t)
+    end
+  end.
+Proof. reflexivity. Qed.
+
 Lemma read_token_version_line X :
   read_token (s_version_line ++ X) = Ok (T_IDENT, s_version_line ++ X, 61 :: 32 :: 49 :: 10 :: X).
 Proof. vm_compute. reflexivity. Qed.
@@ -1836,15 +1862,14 @@ Theorem C11_parse_print_gen_proof : forall chk stmts,
 Proof.
   intros chk stmts Hwf Hchk. unfold parse_gen, parse_raw, print_dyndep.
   rewrite <- app_assoc.
-  set (X := print_body stmts ++ [0]).
-  set (n := length (s_version_line ++ X)).
-  cbn [parse_loop].
-  rewrite read_token_version_line. cbv beta iota.
-  rewrite parse_version_line. cbv beta iota. subst X.
   destruct (print_body_length stmts) as [L1 L2].
+  remember (length (s_version_line ++ print_body stmts ++ [0])) as n eqn:En.
   assert (Hlen : (length (print_body stmts) < n)%nat).
   { subst n. rewrite !app_length. cbn [length]. lia. }
-  clearbody n.
+  clear En.
+  rewrite parse_loop_S.
+  rewrite read_token_version_line. cbv beta iota.
+  rewrite parse_version_line. cbv beta iota.
   rewrite (parse_loop_print chk (S n) stmts n [] Hwf Hchk); [reflexivity|lia|].
   eapply Forall_impl; [|exact L2]. cbv beta. intros a [Ha Hb]. split; lia.
 Qed.
@@ -1857,4 +1882,603 @@ Theorem C11_parse_print_proof : forall stmts,
 Proof.
   intros stmts Hwf. unfold parse_dyndep. apply C11_parse_print_gen_proof; [exact Hwf|].
   apply chk_passes_no_chk.
+Qed.
+
+(* ========================================================================================== *)
+(** * Part 4: consequences for printed files: truncation, and what the parser rejects *)
+
+(* the checks against the State only ADD errors: what the faithful parser accepts, the pure syntax
+   accepts with the same statements *)
+Lemma parse_edge_no_chk fuel chk seen seen' s x :
+  parse_edge fuel chk seen s = Ok x -> parse_edge fuel no_chk seen' s = Ok x.
+Proof.
+  unfold parse_edge.
+  destruct (read_path s) as [[[t0 ne0] r1]|e]; [|discriminate].
+  destruct (ev_empty t0 ne0); [discriminate|].
+  destruct (is_empty t0); [discriminate|]. cbv zeta.
+  destruct (chk seen (canon t0)); [discriminate|]. unfold no_chk. intros H. exact H.
+Qed.
+
+Lemma parse_loop_no_chk fuel0 chk : forall fuel s have acc acc' l,
+  parse_loop fuel fuel0 chk s have acc = Ok l ->
+  exists l', parse_loop fuel fuel0 no_chk s have acc' = Ok l' /\
+             (forall t, l = rev acc ++ t -> l' = rev acc' ++ t) /\ exists t, l = rev acc ++ t.
+Proof.
+  induction fuel as [|f IH]; intros s have acc acc' l; [discriminate|].
+  rewrite !parse_loop_S.
+  destruct (read_token s) as [[[t st] r]|e]; [|discriminate].
+  destruct t; try discriminate.
+  - destruct (negb have); [discriminate|].
+    destruct (parse_edge fuel0 chk acc r) as [[stmt r']|e] eqn:He; [|discriminate].
+    rewrite (parse_edge_no_chk _ _ _ acc' _ _ He). intros H.
+    destruct (IH _ _ _ (stmt :: acc') _ H) as [l' [H1 [H2 [t Ht]]]].
+    exists l'. split; [exact H1|]. cbn [rev] in *. split.
+    + intros t0 E. rewrite (H2 t Ht). rewrite Ht in E. rewrite <- app_assoc in E.
+      apply app_inv_head in E. subst t0. rewrite <- app_assoc. reflexivity.
+    + exists (stmt :: t). rewrite Ht, <- app_assoc. reflexivity.
+  - destruct have; [discriminate|].
+    destruct (parse_version st) as [r'|e]; [|discriminate]. apply IH.
+  - apply IH.
+  - destruct have; [|discriminate]. intros [= <-]. exists (rev acc'). split; [reflexivity|].
+    split; [|exists []; now rewrite app_nil_r].
+    intros t E. rewrite <- (app_nil_r (rev acc)) in E at 1. apply app_inv_head in E. subst t.
+    now rewrite app_nil_r.
+Qed.
+
+Theorem parse_gen_ok_syntax_proof : forall chk c l,
+  parse_gen chk c = Ok l -> parse_dyndep c = Ok l.
+Proof.
+  intros chk c l H. unfold parse_dyndep, parse_gen, parse_raw in *.
+  destruct (parse_loop_no_chk _ chk _ _ _ [] [] _ H) as [l' [H1 [H2 _]]].
+  rewrite H1. f_equal. apply (H2 l). reflexivity.
+Qed.
+
+(* ---------- no NUL in printed files ---------- *)
+Lemma esc_path_nonul p : forallb name_char_ok p = true -> nonul (esc_path p).
+Proof.
+  induction p as [|c p IH]; intros H; [apply nonul_nil|].
+  cbn [forallb] in H. apply andb_true_iff in H. destruct H as [Hc Hp].
+  destruct (name_char_ok_spec c Hc) as [H0 _].
+  cbn [esc_path flat_map]. apply nonul_app; [|now apply IH].
+  unfold esc_char. destruct (N.eqb c 36 || N.eqb c 32 || N.eqb c 58).
+  - repeat apply nonul_cons; try discriminate; [exact H0|apply nonul_nil].
+  - apply nonul_cons; [exact H0|apply nonul_nil].
+Qed.
+
+Lemma plist_items_nonul l : forallb wf_name l = true -> nonul (plist_items l).
+Proof.
+  induction l as [|p l IH]; intros H; [apply nonul_nil|].
+  apply forallb_wf_cons in H. destruct H as [Hp Hl].
+  destruct (wf_name_spec p Hp) as [_ [Hok _]].
+  unfold plist_items. cbn [flat_map]. fold (plist_items l). apply nonul_app; [|now apply IH].
+  apply nonul_cons; [discriminate|now apply esc_path_nonul].
+Qed.
+
+Lemma print_list_nonul l : forallb wf_name l = true -> nonul (print_list l).
+Proof.
+  intros H. rewrite print_list_items. destruct l as [|p0 l0]; [apply nonul_nil|].
+  apply nonul_cons; [discriminate|]. apply nonul_cons; [discriminate|].
+  now apply plist_items_nonul.
+Qed.
+
+Lemma const_nonul (c : bytes) : forallb (fun x => negb (N.eqb x 0)) c = true -> nonul c.
+Proof.
+  intros H Hin. rewrite forallb_forall in H. specialize (H 0 Hin). discriminate.
+Qed.
+
+Lemma print_stmt_nonul st : wf_stmt st = true -> nonul (print_stmt st).
+Proof.
+  intros H. destruct (wf_stmt_spec st H) as [Ho [Hos His]].
+  destruct (wf_name_spec _ Ho) as [_ [Hok _]].
+  unfold print_stmt.
+  apply nonul_app; [apply const_nonul; reflexivity|].
+  apply nonul_cons; [discriminate|].
+  apply nonul_app; [now apply esc_path_nonul|].
+  apply nonul_app; [now apply print_list_nonul|].
+  apply nonul_cons; [discriminate|]. apply nonul_cons; [discriminate|].
+  apply nonul_app; [apply const_nonul; reflexivity|].
+  apply nonul_app; [now apply print_list_nonul|].
+  apply nonul_app; [apply const_nonul; reflexivity|].
+  destruct (dd_restat st); [apply const_nonul; reflexivity|apply nonul_nil].
+Qed.
+
+Lemma print_dyndep_nonul stmts :
+  Forall (fun st => wf_stmt st = true) stmts -> nonul (print_dyndep stmts).
+Proof.
+  intros H. unfold print_dyndep. apply nonul_app; [apply const_nonul; reflexivity|].
+  induction H as [|st l Hst _ IH]; [apply nonul_nil|].
+  unfold print_body. cbn [flat_map]. apply nonul_app; [now apply print_stmt_nonul|exact IH].
+Qed.
+
+Lemma firstn_nonul k (c : bytes) : nonul c -> nonul (firstn k c).
+Proof.
+  intros H Hin. apply H. rewrite <- (firstn_skipn k c). apply in_or_app. now left.
+Qed.
+
+(** C11 truncation: no proper prefix of a rendered file that stops inside a line is accepted *)
+Theorem C11_truncation_proof : forall chk stmts k,
+  chk_ok chk -> Forall (fun st => wf_stmt st = true) stmts ->
+  (forall c', firstn k (print_dyndep stmts) <> c' ++ [10]) ->
+  exists e, parse_gen chk (firstn k (print_dyndep stmts)) = Err e.
+Proof.
+  intros chk stmts k Hchk Hwf Hnl.
+  destruct (parse_gen chk (firstn k (print_dyndep stmts))) as [l|e] eqn:Hp; [|eauto]. exfalso.
+  apply C11_accepted_ends_with_newline_proof in Hp; [|exact Hchk|].
+  - destruct Hp as [c' E]. exact (Hnl c' E).
+  - apply firstn_nonul. now apply print_dyndep_nonul.
+Qed.
+
+(** ... and a prefix that stops at a line boundary but lost the statement of an edge bound to the
+    file is rejected by the loader ("not mentioned in its dyndep file") *)
+Theorem C11_truncation_drops_statement_proof : forall g f stmts i e,
+  Forall (fun st => wf_stmt st = true) stmts ->
+  nth_error (g_edges g) i = Some e -> e_dyndep e = Some f -> mem_bytes f (e_ins e) = true ->
+  find_stmt g stmts i = None ->
+  exists err, dyndep_load g f (Some (print_dyndep stmts)) = Err err.
+Proof.
+  intros g f stmts i e Hwf Hn Hd Hm Hf. unfold dyndep_load.
+  destruct (parse_gen (graph_chk g) (print_dyndep stmts)) as [l|err] eqn:Hp; [|eauto].
+  apply parse_gen_ok_syntax_proof in Hp. rewrite (C11_parse_print_proof stmts Hwf) in Hp.
+  injection Hp as <-. eapply C11_rejects_omitted_edge_proof; eauto.
+Qed.
+
+(* The one truncation nobody can detect: cutting exactly before the "  restat = 1" line of the
+   LAST statement leaves the rendering of the same list with that restat flag cleared. *)
+Lemma print_stmt_restat_line out outs ins :
+  print_stmt (mkStmt out outs ins true) = print_stmt (mkStmt out outs ins false) ++ s_restat_line.
+Proof.
+  unfold print_stmt. cbn [dd_restat dd_out dd_imp_outs dd_imp_ins].
+  rewrite <- !app_assoc. cbn [app]. rewrite <- !app_assoc. cbn [app]. rewrite <- !app_assoc.
+  reflexivity.
+Qed.
+
+Lemma C11_truncation_restat_line_is_a_rendering : forall l out outs ins,
+  print_dyndep (l ++ [mkStmt out outs ins true]) =
+  print_dyndep (l ++ [mkStmt out outs ins false]) ++ s_restat_line.
+Proof.
+  intros l out outs ins. unfold print_dyndep, print_body. rewrite !flat_map_app. cbn [flat_map].
+  rewrite print_stmt_restat_line. rewrite <- !app_assoc. reflexivity.
+Qed.
+
+
+(** what is rejected before anything is applied *)
+Theorem C11_rejects_syntax_error_proof : forall g f c e,
+  parse_gen (graph_chk g) c = Err e -> dyndep_load g f (Some c) = Err e.
+Proof. intros g f c e H. unfold dyndep_load. now rewrite H. Qed.
+
+Theorem C11_rejects_missing_file_proof : forall g f, dyndep_load g f None = Err E_loading.
+Proof. reflexivity. Qed.
+
+(** missing version line: the rendering without its first line *)
+Theorem C11_rejects_missing_version_proof : forall chk stmts,
+  Forall (fun st => wf_stmt st = true) stmts ->
+  parse_gen chk (print_body stmts) = Err E_version_expected_build \/
+  parse_gen chk (print_body stmts) = Err E_version_expected_eof.
+Proof.
+  intros chk stmts Hwf. unfold parse_gen, parse_raw. rewrite parse_loop_S.
+  destruct stmts as [|st l].
+  - right. reflexivity.
+  - left. unfold print_body. cbn [flat_map]. fold (print_body l). rewrite <- app_assoc.
+    rewrite print_stmt_shape. rewrite read_token_build.
+    inversion Hwf as [|? ? Hst _]; subst.
+    destruct (wf_stmt_spec st Hst) as [Hout _]. destruct (wf_name_spec _ Hout) as [Hne [Hok _]].
+    rewrite eat_ws_esc by assumption. reflexivity.
+Qed.
+
+(* ---------- a valid prefix of statements followed by anything ---------- *)
+Lemma peek_indent_body_next l NEXT :
+  Forall (fun st => wf_stmt st = true) l ->
+  peek_token T_INDENT NEXT = Ok (false, NEXT) ->
+  peek_token T_INDENT (print_body l ++ NEXT) = Ok (false, print_body l ++ NEXT).
+Proof.
+  intros Hwf Hn. destruct l as [|st l]; [exact Hn|].
+  unfold print_body. cbn [flat_map]. fold (print_body l). rewrite <- app_assoc.
+  rewrite print_stmt_shape. unfold peek_token. rewrite read_token_build.
+  inversion Hwf as [|? ? Hst _]; subst.
+  destruct (wf_stmt_spec st Hst) as [Hout _]. destruct (wf_name_spec _ Hout) as [Hne [Hok _]].
+  rewrite eat_ws_esc by assumption. reflexivity.
+Qed.
+
+Lemma parse_loop_print_prefix chk fuel0 NEXT :
+  peek_token T_INDENT NEXT = Ok (false, NEXT) ->
+  forall stmts fuel acc,
+  Forall (fun st => wf_stmt st = true) stmts -> chk_passes chk acc stmts ->
+  Forall (fun st => (length (dd_imp_outs st) < fuel0)%nat /\ (length (dd_imp_ins st) < fuel0)%nat) stmts ->
+  parse_loop (length stmts + fuel) fuel0 chk (print_body stmts ++ NEXT) true acc =
+  parse_loop fuel fuel0 chk NEXT true (rev stmts ++ acc).
+Proof.
+  intros Hnext. induction stmts as [|st l IH]; intros fuel acc Hwf Hchk Hf0; [reflexivity|].
+  inversion Hwf as [|? ? Hst Hwfl]; subst. inversion Hf0 as [|? ? [Hfo Hfi] Hf0l]; subst.
+  destruct Hchk as [Hc Hchk].
+  cbn [length Nat.add]. rewrite parse_loop_S.
+  unfold print_body. cbn [flat_map]. fold (print_body l). rewrite <- app_assoc.
+  rewrite print_stmt_shape. rewrite read_token_build.
+  destruct (wf_stmt_spec st Hst) as [Hout _]. destruct (wf_name_spec _ Hout) as [Hne [Hok _]].
+  rewrite eat_ws_esc by assumption. cbv beta iota. cbn [negb].
+  rewrite (parse_edge_print fuel0 chk acc st (print_body l ++ NEXT) Hst Hc Hfo Hfi
+                            (peek_indent_body_next l NEXT Hwfl Hnext)).
+  rewrite IH by assumption. cbn [rev]. rewrite <- app_assoc. reflexivity.
+Qed.
+
+Lemma parse_gen_prefix chk pre (tail : bytes) :
+  Forall (fun st => wf_stmt st = true) pre -> chk_passes chk [] pre ->
+  peek_token T_INDENT (tail ++ [0]) = Ok (false, tail ++ [0]) ->
+  exists fuel fuel0, (length tail < fuel0)%nat /\
+    parse_gen chk (print_dyndep pre ++ tail) = parse_loop (S fuel) fuel0 chk (tail ++ [0]) true (rev pre).
+Proof.
+  intros Hwf Hchk Hnext. unfold parse_gen, parse_raw, print_dyndep.
+  rewrite <- !app_assoc.
+  destruct (print_body_length pre) as [L1 L2].
+  remember (length (s_version_line ++ print_body pre ++ tail ++ [0])) as n eqn:En.
+  assert (Hlen : (length (print_body pre) + length tail < n)%nat).
+  { subst n. rewrite !app_length. cbn [length]. lia. }
+  clear En.
+  rewrite parse_loop_S. rewrite read_token_version_line. cbv beta iota.
+  rewrite parse_version_line. cbv beta iota.
+  exists (n - length pre - 1)%nat, (S n). split; [lia|].
+  replace n with (length pre + S (n - length pre - 1))%nat at 1 by lia.
+  rewrite (parse_loop_print_prefix chk (S n) (tail ++ [0]) Hnext pre _ [] Hwf Hchk).
+  - now rewrite app_nil_r.
+  - eapply Forall_impl; [|exact L2]. cbv beta. intros a [Ha Hb]. split; lia.
+Qed.
+
+Lemma peek_indent_build x : (exists r, eat_ws x = Ok r) ->
+  peek_token T_INDENT (s_build ++ 32 :: x) = Ok (false, s_build ++ 32 :: x).
+Proof. intros [r Hr]. unfold peek_token. rewrite read_token_build, Hr. reflexivity. Qed.
+
+Lemma in_nul_end (x : bytes) : In 0 (x ++ [0]).
+Proof. apply in_or_app. right. now left. Qed.
+
+(* a bad statement: "build <out>" followed by [X]; what parse_edge answers is decided by [X] *)
+Section BadStatement.
+  Variable chk : list dd_stmt -> bytes -> option dd_err.
+  Variable pre : list dd_stmt.
+  Variable out : bytes.
+  Hypothesis Hpre : Forall (fun st => wf_stmt st = true) pre.
+  Hypothesis Hchk : chk_passes chk [] pre.
+  Hypothesis Hout : wf_name out = true.
+  Hypothesis Hchk_out : chk (rev pre) out = None.
+
+  (* the file: a valid rendering of [pre], then "build out" ++ X *)
+  Definition bad_file (X : bytes) : bytes := print_dyndep pre ++ s_build ++ 32 :: esc_path out ++ X.
+
+  Lemma bad_file_parse X :
+    exists fuel fuel0,
+      parse_gen chk (bad_file X) =
+      match parse_edge fuel0 chk (rev pre) (esc_path out ++ X ++ [0]) with
+      | Err e => Err e
+      | Ok (stmt, r') => parse_loop fuel fuel0 chk r' true (stmt :: rev pre)
+      end.
+  Proof.
+    destruct (wf_name_spec _ Hout) as [Hne [Hok _]].
+    destruct (parse_gen_prefix chk pre (s_build ++ 32 :: esc_path out ++ X) Hpre Hchk) as [fuel [fuel0 [_ E]]].
+    { rewrite <- app_assoc. cbn [app]. rewrite <- app_assoc. apply peek_indent_build.
+      rewrite eat_ws_esc by assumption. eauto. }
+    exists fuel, fuel0. unfold bad_file. rewrite E. rewrite parse_loop_S.
+    rewrite <- app_assoc. cbn [app]. rewrite <- app_assoc. rewrite read_token_build.
+    rewrite eat_ws_esc by assumption. reflexivity.
+  Qed.
+
+End BadStatement.
+
+(* the stages of ParseEdge after the rule name / after the ':' (copies of the tail of
+   [parse_edge]; [parse_edge_colon] below checks the copy against the definition) *)
+Definition edge_after_rule (fuel : nat) (out : bytes) (outs : list bytes) (r6 : bytes)
+  : result (dd_stmt * bytes) :=
+  match read_path r6 with
+  | Err e => Err e
+  | Ok (t2, ne2, r7) =>
+    if negb (ev_empty t2 ne2) then Err E_explicit_ins
+    else
+    match peek_token T_PIPE r7 with
+    | Err e => Err e
+    | Ok (has_ins, r8) =>
+      match (if has_ins then read_paths fuel r8 else Ok ([], r8)) with
+      | Err e => Err e
+      | Ok (ins, r9) =>
+        match peek_token T_PIPE2 r9 with
+        | Err e => Err e
+        | Ok (true, _) => Err E_order_only
+        | Ok (false, r10) =>
+          match expect_token T_NEWLINE r10 with
+          | Err e => Err e
+          | Ok r11 =>
+            match peek_token T_INDENT r11 with
+            | Err e => Err e
+            | Ok (has_let, r12) =>
+              match (if has_let then
+                       match parse_let r12 with
+                       | Err e => Err e
+                       | Ok (key, (v, _), r13) =>
+                         if negb (bytes_eqb key s_restat) then Err E_binding_not_restat
+                         else Ok (negb (is_empty v), r13)
+                       end
+                     else Ok (false, r12)) with
+              | Err e => Err e
+              | Ok (restat, r14) =>
+                match canon_paths ins with
+                | Err e => Err e
+                | Ok cins =>
+                  match canon_paths outs with
+                  | Err e => Err e
+                  | Ok couts => Ok (mkStmt out couts cins restat, r14)
+                  end
+                end
+              end
+            end
+          end
+        end
+      end
+    end
+  end.
+
+Definition edge_after_colon (fuel : nat) (out : bytes) (outs : list bytes) (r5 : bytes)
+  : result (dd_stmt * bytes) :=
+  match read_ident r5 with
+  | Err e => Err e
+  | Ok None => Err E_expected_dyndep
+  | Ok (Some (rule, r6)) =>
+    if negb (bytes_eqb rule s_dyndep) then Err E_expected_dyndep
+    else edge_after_rule fuel out outs r6
+  end.
+
+(* "build out: X" without implicit outputs *)
+(* [byte] is a constant equal to [N]: a term written with literals is elaborated with [@cons N],
+   an instantiated lemma may carry [@cons byte]; [rewrite] matches syntactically.  [rw L] rewrites
+   with [L] after unfolding [byte]/[bytes] on both sides. *)
+Ltac nb := unfold bytes in *; unfold byte in *.
+Ltac norm_app := cbn [app]; rewrite <- ?app_assoc; cbn [app]; rewrite <- ?app_assoc; cbn [app].
+Ltac rw L := let H := fresh "Hrw" in pose proof L as H; unfold bytes in H; unfold byte in H; rewrite H; clear H.
+
+Lemma parse_edge_colon fuel chk seen (out : bytes) (Y : bytes) :
+  wf_name out = true -> chk seen out = None ->
+  parse_edge fuel chk seen (esc_path out ++ 58 :: 32 :: Y) =
+  match eat_ws Y with Err e => Err e | Ok r5 => edge_after_colon fuel out [] r5 end.
+Proof.
+  intros Hout Hchk. destruct (wf_name_spec _ Hout) as [Hne [Hok Hcanon]].
+  unfold parse_edge. nb.
+  rw (read_path_esc out 58 (32 :: Y) Hout (or_intror (or_introl eq_refl))).
+  assert (E1 : eat_ws (58 :: 32 :: Y) = Ok (58 :: 32 :: Y)) by reflexivity. rw E1.
+  cbv beta iota. unfold ev_empty at 1. cbn [negb].
+  replace (is_empty out) with false by (destruct out; [congruence|reflexivity]).
+  cbv zeta. rewrite Hcanon, Hchk. rw (read_path_at_colon (32 :: Y)). cbv beta iota.
+  unfold ev_empty at 1. cbn [negb].
+  unfold peek_token at 1. rw (read_token_colon_sp Y).
+  destruct (eat_ws Y) as [r5|e] eqn:EY; [|reflexivity]. cbn [token_eqb]. cbv beta iota.
+  unfold expect_token at 1. rw (read_token_colon_sp Y). rewrite EY. reflexivity.
+Qed.
+
+Lemma varname_char_facts c : is_varname_char c = true ->
+  c <> 32 /\ c <> 35 /\ c <> 10 /\ c <> 13 /\ c <> 36 /\ c <> 0.
+Proof. intros H. repeat split; intros ->; vm_compute in H; discriminate. Qed.
+
+Lemma span_varname_app : forall (w : bytes) (d : byte) (Y : bytes),
+  forallb is_varname_char w = true -> is_varname_char d = false ->
+  span_varname (w ++ d :: Y) = Ok (w, d :: Y).
+Proof.
+  induction w as [|c w IH]; intros d Y Hw Hd; cbn [app span_varname].
+  - now rewrite Hd.
+  - cbn [forallb] in Hw. apply andb_true_iff in Hw. destruct Hw as [Hc Hw].
+    rewrite Hc, IH by assumption. reflexivity.
+Qed.
+
+Lemma read_ident_word (w : bytes) (d : byte) (Y : bytes) :
+  w <> [] -> forallb is_varname_char w = true -> is_varname_char d = false ->
+  read_ident (w ++ d :: Y) =
+  match eat_ws (d :: Y) with Ok r => Ok (Some (w, r)) | Err e => Err e end.
+Proof.
+  intros Hne Hw Hd. destruct w as [|c w]; [congruence|].
+  cbn [forallb] in Hw. apply andb_true_iff in Hw. destruct Hw as [Hc Hw].
+  cbn [app read_ident]. rewrite Hc, span_varname_app by assumption. reflexivity.
+Qed.
+
+Lemma eat_ws_word (w : bytes) (Y : bytes) :
+  w <> [] -> forallb is_varname_char w = true -> eat_ws (w ++ Y) = Ok (w ++ Y).
+Proof.
+  intros Hne Hw. destruct w as [|c w]; [congruence|].
+  cbn [forallb] in Hw. apply andb_true_iff in Hw. destruct Hw as [Hc _].
+  destruct (varname_char_facts c Hc) as [H32 [_ [_ [_ [H36 _]]]]].
+  cbn [app]. now apply eat_ws_stop.
+Qed.
+
+Lemma read_token_pipe2 (R : bytes) : read_token (124 :: 124 :: R) =
+  match eat_ws R with Ok r => Ok (T_PIPE2, 124 :: 124 :: R, r) | Err e => Err e end.
+Proof. reflexivity. Qed.
+
+Lemma read_token_indent2 (c : byte) (y : bytes) : is_varname_char c = true ->
+  read_token (32 :: 32 :: c :: y) = Ok (T_INDENT, 32 :: 32 :: c :: y, c :: y).
+Proof.
+  intros Hc. destruct (varname_char_facts c Hc) as [H32 [H35 [H10 [H13 [H36 _]]]]].
+  unfold read_token. cbn [read_token_aux N.eqb Pos.eqb].
+  apply N.eqb_neq in H32, H35, H10, H13, H36.
+  rewrite H32, H35, H10, H13. cbn [eat_ws]. now rewrite H32, H36.
+Qed.
+
+(** explicit output: "build out x ..." *)
+Theorem C11_rejects_explicit_output_proof : forall chk pre out x d rest,
+  Forall (fun st => wf_stmt st = true) pre -> chk_passes chk [] pre ->
+  wf_name out = true -> chk (rev pre) out = None -> wf_name x = true -> delim d ->
+  parse_gen chk (bad_file pre out (32 :: esc_path x ++ d :: rest)) = Err E_explicit_outs.
+Proof.
+  intros chk pre out x d rest Hpre Hchk Hout Hco Hx Hd.
+  destruct (bad_file_parse chk pre out Hpre Hchk Hout (32 :: esc_path x ++ d :: rest)) as [fuel [fuel0 E]].
+  rewrite E. clear E.
+  destruct (wf_name_spec _ Hout) as [Hne [Hok Hcanon]].
+  destruct (wf_name_spec _ Hx) as [Hxne [Hxok _]].
+  norm_app.
+  unfold parse_edge. nb.
+  rw (read_path_esc out 32 (esc_path x ++ d :: rest ++ [0]) Hout (or_introl eq_refl)).
+  cbn [eat_ws N.eqb Pos.eqb]. rw (eat_ws_esc x (d :: rest ++ [0]) Hxne Hxok).
+  cbv beta iota. unfold ev_empty at 1. cbn [negb].
+  replace (is_empty out) with false by (destruct out; [congruence|reflexivity]).
+  cbv zeta. rewrite Hcanon, Hco.
+  rw (read_path_esc x d (rest ++ [0]) Hx Hd).
+  destruct (eat_ws_spec (d :: rest ++ [0])) as [r [Hr _]]; [right; apply in_nul_end|].
+  nb. rewrite Hr. reflexivity.
+Qed.
+
+(** explicit input: "build out: dyndep x ..." *)
+Theorem C11_rejects_explicit_input_proof : forall chk pre out x d rest,
+  Forall (fun st => wf_stmt st = true) pre -> chk_passes chk [] pre ->
+  wf_name out = true -> chk (rev pre) out = None -> wf_name x = true -> delim d ->
+  parse_gen chk (bad_file pre out (58 :: 32 :: s_dyndep ++ 32 :: esc_path x ++ d :: rest))
+  = Err E_explicit_ins.
+Proof.
+  intros chk pre out x d rest Hpre Hchk Hout Hco Hx Hd.
+  destruct (bad_file_parse chk pre out Hpre Hchk Hout
+              (58 :: 32 :: s_dyndep ++ 32 :: esc_path x ++ d :: rest)) as [fuel [fuel0 E]].
+  rewrite E. clear E.
+  destruct (wf_name_spec _ Hx) as [Hxne [Hxok _]].
+  norm_app.
+  nb. rw (parse_edge_colon fuel0 chk (rev pre) out (s_dyndep ++ 32 :: esc_path x ++ d :: rest ++ [0]) Hout Hco).
+  assert (E1 : eat_ws (s_dyndep ++ 32 :: esc_path x ++ d :: rest ++ [0])
+               = Ok (s_dyndep ++ 32 :: esc_path x ++ d :: rest ++ [0])) by reflexivity.
+  nb. rewrite E1. unfold edge_after_colon.
+  rw (read_ident_dyndep (32 :: esc_path x ++ d :: rest ++ [0]) 32 (esc_path x ++ d :: rest ++ [0]) eq_refl (or_introl eq_refl)).
+  cbn [eat_ws N.eqb Pos.eqb]. rw (eat_ws_esc x (d :: rest ++ [0]) Hxne Hxok).
+  cbv beta iota. rewrite bytes_eqb_refl. cbn [negb]. unfold edge_after_rule.
+  rw (read_path_esc x d (rest ++ [0]) Hx Hd).
+  destruct (eat_ws_spec (d :: rest ++ [0])) as [r [Hr _]]; [right; apply in_nul_end|].
+  nb. rewrite Hr. reflexivity.
+Qed.
+
+(** order-only inputs: "build out: dyndep || ..." *)
+Theorem C11_rejects_order_only_proof : forall chk pre out rest,
+  Forall (fun st => wf_stmt st = true) pre -> chk_passes chk [] pre ->
+  wf_name out = true -> chk (rev pre) out = None ->
+  parse_gen chk (bad_file pre out (58 :: 32 :: s_dyndep ++ 32 :: 124 :: 124 :: rest))
+  = Err E_order_only.
+Proof.
+  intros chk pre out rest Hpre Hchk Hout Hco.
+  destruct (bad_file_parse chk pre out Hpre Hchk Hout
+              (58 :: 32 :: s_dyndep ++ 32 :: 124 :: 124 :: rest)) as [fuel [fuel0 E]].
+  rewrite E. clear E.
+  norm_app.
+  nb. rw (parse_edge_colon fuel0 chk (rev pre) out (s_dyndep ++ 32 :: 124 :: 124 :: rest ++ [0]) Hout Hco).
+  assert (E1 : eat_ws (s_dyndep ++ 32 :: 124 :: 124 :: rest ++ [0])
+               = Ok (s_dyndep ++ 32 :: 124 :: 124 :: rest ++ [0])) by reflexivity.
+  nb. rewrite E1. unfold edge_after_colon.
+  rw (read_ident_dyndep (32 :: 124 :: 124 :: rest ++ [0]) 32 (124 :: 124 :: rest ++ [0]) eq_refl (or_introl eq_refl)).
+  assert (E2 : eat_ws (32 :: 124 :: 124 :: rest ++ [0]) = Ok (124 :: 124 :: rest ++ [0])) by reflexivity.
+  nb. rewrite E2. cbv beta iota. rewrite bytes_eqb_refl. cbn [negb]. unfold edge_after_rule.
+  rw (read_path_at_pipe (124 :: rest ++ [0])). cbv beta iota. unfold ev_empty at 1. cbn [negb].
+  unfold peek_token. rw (read_token_pipe2 (rest ++ [0])).
+  destruct (eat_ws_spec (rest ++ [0])) as [r [Hr _]]; [apply in_nul_end|].
+  nb. rewrite Hr. cbn [token_eqb]. cbv beta iota.
+  rw (read_token_pipe2 (rest ++ [0])). rewrite Hr. reflexivity.
+Qed.
+
+(** a binding other than restat: "build out: dyndep\n  key = 1\n..." *)
+Theorem C11_rejects_other_binding_proof : forall chk pre out key rest,
+  Forall (fun st => wf_stmt st = true) pre -> chk_passes chk [] pre ->
+  wf_name out = true -> chk (rev pre) out = None ->
+  key <> [] -> forallb is_varname_char key = true -> bytes_eqb key s_restat = false ->
+  parse_gen chk (bad_file pre out
+     (58 :: 32 :: s_dyndep ++ 10 :: 32 :: 32 :: key ++ 32 :: 61 :: 32 :: 49 :: 10 :: rest))
+  = Err E_binding_not_restat.
+Proof.
+  intros chk pre out key rest Hpre Hchk Hout Hco Hkne Hkey Hk.
+  destruct (bad_file_parse chk pre out Hpre Hchk Hout
+     (58 :: 32 :: s_dyndep ++ 10 :: 32 :: 32 :: key ++ 32 :: 61 :: 32 :: 49 :: 10 :: rest)) as [fuel [fuel0 E]].
+  rewrite E. clear E.
+  norm_app.
+  nb. match goal with |- context [s_dyndep ++ 10 :: 32 :: 32 :: ?X] => set (R := X) end.
+  rw (parse_edge_colon fuel0 chk (rev pre) out (s_dyndep ++ 10 :: 32 :: 32 :: R) Hout Hco).
+  assert (E1 : eat_ws (s_dyndep ++ 10 :: 32 :: 32 :: R) = Ok (s_dyndep ++ 10 :: 32 :: 32 :: R)) by reflexivity.
+  nb. rewrite E1. unfold edge_after_colon.
+  rw (read_ident_dyndep (10 :: 32 :: 32 :: R) 10 (32 :: 32 :: R) eq_refl (or_intror eq_refl)).
+  assert (E2 : eat_ws (10 :: 32 :: 32 :: R) = Ok (10 :: 32 :: 32 :: R)) by reflexivity.
+  nb. rewrite E2. cbv beta iota. rewrite bytes_eqb_refl. cbn [negb]. unfold edge_after_rule.
+  rw (read_path_at_nl (32 :: 32 :: R)). cbv beta iota. unfold ev_empty at 1. cbn [negb].
+  assert (E3 : peek_token T_PIPE (10 :: 32 :: 32 :: R) = Ok (false, 10 :: 32 :: 32 :: R)) by reflexivity.
+  assert (E4 : peek_token T_PIPE2 (10 :: 32 :: 32 :: R) = Ok (false, 10 :: 32 :: 32 :: R)) by reflexivity.
+  assert (E5 : expect_token T_NEWLINE (10 :: 32 :: 32 :: R) = Ok (32 :: 32 :: R)) by reflexivity.
+  nb. rewrite E3. cbv beta iota. rewrite E4. cbv beta iota. rewrite E5. cbv beta iota.
+  destruct key as [|c key']; [congruence|].
+  cbn [forallb] in Hkey. apply andb_true_iff in Hkey. destruct Hkey as [Hc Hkey'].
+  assert (E6 : peek_token T_INDENT (32 :: 32 :: R) = Ok (true, R)).
+  { subst R. cbn [app]. unfold peek_token. rw (read_token_indent2 c (key' ++ 32 :: 61 :: 32 :: 49 :: 10 :: rest ++ [0]) Hc).
+    reflexivity. }
+  rewrite E6. cbv beta iota.
+  assert (E7 : parse_let R = Ok (c :: key', ([49], true), rest ++ [0])).
+  { subst R. unfold parse_let.
+    assert (Hk1 : c :: key' <> []) by discriminate.
+    assert (Hk2 : forallb is_varname_char (c :: key') = true)
+      by (cbn [forallb]; apply andb_true_iff; split; assumption).
+    rw (read_ident_word (c :: key') 32 (61 :: 32 :: 49 :: 10 :: rest ++ [0]) Hk1 Hk2 eq_refl).
+    reflexivity. }
+  rewrite E7. cbv beta iota. rewrite Hk. reflexivity.
+Qed.
+
+(** a rule name other than "dyndep": "build out: rule ..." *)
+Theorem C11_rejects_wrong_rule_proof : forall chk pre out rule d rest,
+  Forall (fun st => wf_stmt st = true) pre -> chk_passes chk [] pre ->
+  wf_name out = true -> chk (rev pre) out = None ->
+  rule <> [] -> forallb is_varname_char rule = true -> bytes_eqb rule s_dyndep = false ->
+  d = 32 \/ d = 10 ->
+  parse_gen chk (bad_file pre out (58 :: 32 :: rule ++ d :: rest)) = Err E_expected_dyndep.
+Proof.
+  intros chk pre out rule d rest Hpre Hchk Hout Hco Hrne Hrule Hr Hd.
+  destruct (bad_file_parse chk pre out Hpre Hchk Hout (58 :: 32 :: rule ++ d :: rest)) as [fuel [fuel0 E]].
+  rewrite E. clear E.
+  norm_app.
+  nb. rw (parse_edge_colon fuel0 chk (rev pre) out (rule ++ d :: rest ++ [0]) Hout Hco).
+  rw (eat_ws_word rule (d :: rest ++ [0]) Hrne Hrule). unfold edge_after_colon.
+  assert (Hdv : is_varname_char d = false) by (destruct Hd as [-> | ->]; reflexivity).
+  rw (read_ident_word rule d (rest ++ [0]) Hrne Hrule Hdv).
+  destruct (eat_ws_spec (d :: rest ++ [0])) as [r [Hr' _]]; [right; apply in_nul_end|].
+  nb. rewrite Hr'. cbv beta iota. rewrite Hr. reflexivity.
+Qed.
+
+(* ========================================================================================== *)
+(** * Part 5: file level statements *)
+
+Lemma load_ok_found_bound g f stmts g' :
+  load_dyndep g f stmts = Ok g' ->
+  forall i st, find_stmt g stmts i = Some st -> bound_to g f i = true.
+Proof.
+  unfold load_dyndep. destruct (check_stmts g [] stmts); [discriminate|].
+  destruct (load_edges _ _ _ _ _); [|discriminate].
+  destruct (forallb _ stmts) eqn:Hu; [|discriminate]. intros _ i st Hf.
+  apply find_stmt_some in Hf. destruct Hf as [Hin Hk].
+  rewrite forallb_forall in Hu. eapply stmt_used_bound; [apply Hu; exact Hin|exact Hk].
+Qed.
+
+(* every edge bound to the file has a binding scope of its own (the usual way of writing
+   "dyndep = file" in the build statement guarantees it) *)
+Definition bound_scoped (g : graph) (f : node) : Prop :=
+  forall i e, nth_error (g_edges g) i = Some e -> opt_node_eqb (e_dyndep e) f = true ->
+              e_scope e <> NoScope.
+
+(** C11 at file level: when the real loader accepts a dyndep file, the graph it leaves is the
+    graph of the manifest with the file's information written into the build statements *)
+Theorem C11_file_load_is_inline_proof : forall g f c g',
+  listed_once g f -> bound_scoped g f ->
+  dyndep_load g f (Some c) = Ok g' ->
+  exists stmts, parse_dyndep c = Ok stmts /\ g' = inline_dyndep g stmts.
+Proof.
+  intros g f c g' Honce Hsc. unfold dyndep_load.
+  destruct (parse_gen (graph_chk g) c) as [stmts|e] eqn:Hp; [|discriminate]. intros Hl.
+  exists stmts. split; [eapply parse_gen_ok_syntax_proof; eauto|].
+  apply (C11_load_is_inline_proof g f stmts g' Honce); [|exact Hl].
+  intros i e st Hn Hf _. apply (Hsc i e Hn).
+  pose proof (load_ok_found_bound g f stmts g' Hl i st Hf) as Hb.
+  unfold bound_to in Hb. now rewrite Hn in Hb.
+Qed.
+
+Lemma check_stmts_passes g : forall stmts seen,
+  check_stmts g seen stmts = None -> chk_passes (graph_chk g) seen stmts.
+Proof.
+  induction stmts as [|st l IH]; intros seen; cbn [check_stmts chk_passes]; [auto|].
+  destruct (graph_chk g seen (dd_out st)); [discriminate|]. intros H. split; [reflexivity|now apply IH].
+Qed.
+
+(** loading the rendering of a statement list = applying the list *)
+Theorem C11_load_print_proof : forall g f stmts,
+  Forall (fun st => wf_stmt st = true) stmts -> check_stmts g [] stmts = None ->
+  dyndep_load g f (Some (print_dyndep stmts)) = load_dyndep g f stmts.
+Proof.
+  intros g f stmts Hwf Hc. unfold dyndep_load.
+  rewrite (C11_parse_print_gen_proof (graph_chk g) stmts Hwf (check_stmts_passes g stmts [] Hc)).
+  reflexivity.
 Qed.
